@@ -36,6 +36,13 @@ prop("C01", stems=["SO2", "SE2", "Rn", "SO3Quat", "SO3Mrp", "SO3Dcm", "SO3Euler"
      technique="Coq proof (ring/field/lra/nsatz + hand lemmas on sqrt/atan) over a model regenerated from source by a translator",
      explanation="group laws as matrix identities for all valid parameter vectors")
 
+prop("C04", stems=["SO2", "SE2", "Rn", "so3", "se3", "se23", "SO3Quat", "SO3Mrp", "SO3Dcm", "SO3Euler", "SE3Quat", "SE3Mrp", "SE23Quat", "SE23Mrp", "DP"],
+     props=["Props/C04.v"], falsify="falsify_C04",
+     level_text="Kernel-checked on the regenerated model, for all inputs: ad_x y = [x,y], hat([x,y]) = matrix commutator, antisymmetry and Jacobi for so2, se2, r2, r3, so3, se3, se_2(3); Ad_X is conjugation (intertwining form hat(Ad_X y) M(X) = M(X) hat(y)) for SO2, SE2, R2, R3, SO3 quaternion/MRP, SE3 and SE_2(3) with quaternion and MRP rotation parts; Ad homomorphism for SO3Quat, SO3Dcm, SE2, SE3Quat; Ad/ad square on the parameter vector for R^n. Partial: Ad_exp(x) = exp(ad_x), Ad homomorphism for the MRP/SE_2(3) groups, DCM/Euler conjugation are covered by the numeric search only.",
+     level_note=GEN_NOTE + "Conjugation is stated without the inverse; invertibility of M(X) is C01.",
+     technique="Coq proof (ring/nsatz/field) over a model regenerated from source by a translator",
+     explanation="adjoint and bracket identities for all group/algebra elements")
+
 prop("C16", stems=["Quadrotor"], props=["Props/C16.v"], falsify="falsify_C16",
      level_text="Kernel-checked theorems over the regenerated real-number model of quadrotor.derive_model(): q.qdot=0, quaternion and position kinematics, hover equilibrium, free-fall accelerometer, rotor-sum wrench (Euler and Newton equations), motor first-order law, translation and yaw equivariance, for ALL states, inputs and parameter vectors (parameters are symbolic). Not proved: the exponential closed-form motor response (only the ODE right-hand side), drag-on branch of the force sum.",
      level_note=GEN_NOTE + "Numeric search on the real functions (harness/falsify_C16.py) supports replay generation only.",
